@@ -85,6 +85,8 @@ func RunTree(r *vh.Run, rng *vh.RNG, name string, t *chainx.Tree, sched [][]int)
 		c.Op(b.DeclLine(), "ok")
 	}
 	pruned := map[int]bool{}
+	// bodies that came back below a pruned gap through AddValidatedV2Blocks (see the island step)
+	islandSet := map[int]bool{}
 	prunes, resub, belowForks, restarts := 0, 0, 0, 0
 	// restart: the process stops and the node is reopened from the same database (a new DBStore
 	// and Manager); everything the property speaks about is in the store, so nothing may change
@@ -169,6 +171,14 @@ func RunTree(r *vh.Run, rng *vh.RNG, name string, t *chainx.Tree, sched [][]int)
 				continue
 			}
 			_, body := nd.CM.Block(b.Block.ID())
+			if want[b.ID] && body && islandSet[b.ID] {
+				// KNOWN FINDING: PruneBlocks walks down from the height and stops at the first block
+				// that has no body, so bodies that were re-stored below an already pruned stretch
+				// (AddValidatedV2Blocks stores what it is given; AddBlocks does not) are never
+				// reached by any later prune
+				c.Oracle("prune-skips-bodies-below-a-gap", "PruneBlocks(%d) at tip height %d: body of best-chain block %d (height %d), re-stored through AddValidatedV2Blocks below a pruned stretch, is still stored", h, tipH, b.ID, b.Height)
+				continue
+			}
 			if want[b.ID] && body {
 				cls := "prune-leaves-body"
 				if h > tipH+1 {
@@ -310,6 +320,49 @@ func RunTree(r *vh.Run, rng *vh.RNG, name string, t *chainx.Tree, sched [][]int)
 			doPrune(choices[rng.Intn(len(choices))])
 			if rng.Chance(1, 4) {
 				doPrune(choices[rng.Intn(len(choices))]) // repeated prune
+			}
+			// bodies come back BELOW the pruned region through the pre-validated path (which, unlike
+			// AddBlocks, stores what it is given): an island of bodies under a gap. MinReorgIndex is
+			// still the lowest block from which the chain is complete up to the tip.
+			if rng.Chance(1, 2) {
+				var island []int
+				tipH := nd.CM.Tip().Height
+				for h := uint64(1); h+2 < tipH; h++ {
+					ci, ok := nd.CM.BestIndex(h)
+					if !ok {
+						break
+					}
+					id := idOf(t, ci.ID)
+					if id <= 0 || !pruned[id] {
+						if len(island) > 0 {
+							break
+						}
+						continue
+					}
+					// leave at least one pruned block above the island
+					up, _ := nd.CM.BestIndex(h + 1)
+					if !pruned[idOf(t, up.ID)] {
+						break
+					}
+					if c01.PreValidated(t, append(append([]int(nil), island...), id)) {
+						island = append(island, id)
+					} else if len(island) > 0 {
+						break
+					}
+				}
+				if len(island) > 0 {
+					res := c01.SubmitV2(t, nd, island, len(island))
+					c01.SubmitV2(t, twin, island, len(island))
+					var sb strings.Builder
+					fmt.Fprintf(&sb, "addv2 %d", len(island))
+					for _, id := range island {
+						fmt.Fprintf(&sb, " %d", id)
+						delete(pruned, id)
+						islandSet[id] = true
+					}
+					c.Op(sb.String(), c01.Observe(t, nd, res))
+					c.Tags = append(c.Tags, "island-of-bodies-below-pruned-region")
+				}
 			}
 			if rng.Chance(1, 3) {
 				restart()
